@@ -152,6 +152,9 @@ func VerifH18Transparent() {
 	verifrt.Assert(w.status == ref.status, "status-unchanged")
 	enc := w.Header().Get("Content-Encoding")
 	offered := strings.Contains(accept, "gzip") && !strings.Contains(accept, "gzip;q=0")
+	if strings.Contains(accept, "gzip;q=0") {
+		verifrt.Tag("gzip-item-with-zero-quality") // the input class of the recorded known finding
+	}
 	applied := false
 	body := w.body
 	if enc == "gzip" && b.cenc != "gzip" {
@@ -192,4 +195,52 @@ func VerifH18Transparent() {
 		verifrt.Assert(n == 1, "vary-accept-encoding-once")
 	}
 	verifrt.Observe("gz", w.status, applied, len(body))
+}
+
+// VerifH18Negotiation: for every Accept-Encoding list of 1..2 items over {gzip, x-gzip, identity, *,
+// zstd} x {no q, q=0, q=0.0 after a blank, q=0.5, q=1}, a client that did not offer gzip (no gzip item
+// of non-zero quality and no wildcard of non-zero quality) receives identity-coded data.
+func VerifH18Negotiation() {
+	codings := []string{"gzip", "x-gzip", "identity", "*", "zstd"}
+	quals := []string{"", ";q=0", "; q=0.0", ";q=0.5", ";q=1"}
+	n := verifrt.IntRange("items", 1, 2)
+	accept := ""
+	gzipOffered, gzipRefused, gzipNamed, wildOffered := false, false, false, false
+	for i := 0; i < n; i++ {
+		c := verifrt.Choose("coding", len(codings))
+		q := verifrt.Choose("q", len(quals))
+		if i > 0 {
+			accept += []string{", ", ","}[verifrt.Choose("sep", 2)]
+		}
+		accept += codings[c] + quals[q]
+		zero := q == 1 || q == 2
+		switch {
+		case c <= 1:
+			gzipNamed = true
+			gzipOffered = gzipOffered || !zero
+			gzipRefused = gzipRefused || zero
+		case c == 3:
+			wildOffered = wildOffered || !zero
+		}
+	}
+	offered := gzipOffered || (!gzipNamed && wildOffered)
+	if gzipRefused {
+		verifrt.Tag("gzip-item-with-zero-quality")
+	}
+	b := zzInnerResp{ctype: "text/plain", status: 200, chunks: [][]byte{verifrt.Bytes("chunk", 2)}}
+	cfg := Config{RequestFilters: []RequestFilter{DefaultExtFilter()}, ResponseFilters: []ResponseFilter{SkipCompressedFilter{}}}
+	g := Gzip{Next: zzInner{&b}, Configs: []Config{cfg}}
+	r := &http.Request{Method: "GET", URL: &url.URL{Path: "/a.txt"}, Header: http.Header{"Accept-Encoding": []string{accept}}}
+	w := &zzClient{}
+	g.ServeHTTP(w, r)
+	enc := w.Header().Get("Content-Encoding")
+	if !offered {
+		verifrt.Assert(enc == "" && bytes.Equal(w.body, b.chunks[0]), "gzip-only-when-offered")
+	} else if enc == "gzip" {
+		dec, ok := zzGunzip(w.body)
+		verifrt.Assert(ok && bytes.Equal(dec, b.chunks[0]), "decoded-body-equals-identity-body")
+	} else {
+		verifrt.Assert(enc == "" && bytes.Equal(w.body, b.chunks[0]), "identity-body-unchanged")
+	}
+	verifrt.Observe("neg", enc, offered) // (the coded length differs between the gzip model and real gzip)
 }
